@@ -17,12 +17,23 @@ def gen_program(rng):
         lines += ['.define bank {', '    name = "b0"', '}', '.define bank {', '    name = "b1"', '}',
                   '.define segment {', '    name = "code"', '    start = $2000', '    bank = "b0"', '}',
                   '.define segment {', '    name = "other"', '    start = $4000', '    bank = "b1"', '}',
-                  '.segment "other" {', '    .byte $55, $66, $77', '}', '.segment "code"']
+                  '.segment "other" {', '    .byte $55, $66, $77', '}']
+        if rng.random() < 0.5:
+            # code of the OTHER bank at the very addresses the tests run at, with assertions that are false: a test only meets
+            # the assertions of its own bank
+            lines += ['.define segment {', '    name = "shadow"', '    start = $2000', '    bank = "b1"', '}', '.segment "shadow" {']
+            for _ in range(rng.randrange(3, 12)):
+                lines += ["    nop", '    .assert 1 == 2 "assertion of the other bank"']
+            lines += ["}"]
+        lines += ['.segment "code"']
     # the called subroutines in a segment of their own that lies BELOW the code and is written behind (or in front of) the test:
     # assertions are then not collected in ascending address order
     use_low = rng.random() < 0.3
     if use_low and not two_banks:
-        lines += ['.define segment {', '    name = "code"', '    start = $2000', '}', '.define segment {', '    name = "low"', '    start = $1000', '}', '.segment "code"']
+        # (half of them run somewhere else than they are stored: the test starts where the code runs)
+        reloc = ['    pc = $8000'] if rng.random() < 0.5 else []
+        lines += ['.define segment {', '    name = "code"', '    start = $2000'] + reloc + ['}', '.define segment {', '    name = "low"', '    start = $1000'] + \
+                 (['    pc = $6000'] if reloc and rng.random() < 0.5 else []) + ['}', '.segment "code"']
     elif use_low:
         k = lines.index('.segment "other" {')
         lines[k:k] = ['.define segment {', '    name = "low"', '    start = $1000', '    bank = "b0"', '}']
